@@ -720,7 +720,7 @@ func TestVerifC28Concurrent(t *testing.T) {
 	if !ok {
 		t.Fatalf("proxy does not advertise Metadata")
 	}
-	rounds := r.N(4, 100)
+	rounds := r.N(4, 40)
 	ctx := context.Background()
 	defaultProcs := runtime.GOMAXPROCS(0)
 	defer runtime.GOMAXPROCS(defaultProcs)
